@@ -4,7 +4,7 @@
    Quantifiers: every server feature set cfg, every history ops of create / read / update / delete /
    use-of-secret operations, every request document (key/value list, incl. unknown members and members
    named like the response's own), every presented token, every scripted embedder hook. *)
-From Verif Require Import Base Types Dcr DcrUse C12Proofs C12UseProofs.
+From Verif Require Import Base Scope Types Config Discovery Routes Dcr DcrUse DcrUri C12Proofs C12UseProofs C12UriProofs.
 Local Open Scope N_scope.
 
 (* In every reachable state, a read, update or delete is accepted only when it presents, as a bearer
@@ -256,4 +256,87 @@ Example ex_mixed_detail_types_refused :
     = DErr EInvalidClientMetadata /\
   snd (dstep ex_cfg_mixed [] 0 (Create (Some (dput "authorization_data_types" (JArr ["account"; "payment"]) ex_doc_mixed)) HkNone))
     = DErr EInvalidClientMetadata.
+Proof. vm_compute. auto. Qed.
+
+(* ---- the registration URI, as a string, FOLLOWED (Model/DcrUri.v over Model/Routes.v): path prefix
+        (WithPathPrefix) and registration endpoint override (WithDCREndpoint) are inputs ---- *)
+
+(* For every configuration record with dynamic registration on whose patterns do not overlap, every
+   client id that is one non-empty path segment and each of GET / PUT / DELETE: the request a client
+   makes by using registrationURI's string literally (host ++ prefix ++ EndpointDCR ++ "/" ++ id) is
+   dispatched by the route table of Provider.Handler() to the registered-client handlers, with
+   {client_id} bound to that very id. *)
+Theorem dcr_registration_uri_served : forall host pc cid m,
+  cf_dcr (pc_cfg pc) = true -> routes_ok pc = true -> sub_roots_apart pc = true ->
+  is_empty cid = false -> no_slash cid = true -> In m [MGet; MPut; MDelete] ->
+  follow host pc m (registration_uri host pc cid) = Some EpDcrClient /\
+  follow_client host pc m (registration_uri host pc cid) = Some cid.
+Proof. exact registration_uri_followed. Qed.
+Print Assumptions dcr_registration_uri_served.
+
+(* ... and it is the only such URL: whatever URL reaches the registered-client handlers with
+   {client_id} = w IS the registration URI of w (any configuration, any method). *)
+Theorem dcr_registration_uri_unique : forall host pc m url w,
+  follow_client host pc m url = Some w -> url = registration_uri host pc w.
+Proof. exact follow_client_unique. Qed.
+Print Assumptions dcr_registration_uri_unique.
+
+(* The registration URI returned by a registration or update is exactly the one that works afterwards.
+   For every option list provider.New accepts (path prefix, endpoint overrides, feature options) with
+   dynamic registration on and non-overlapping patterns, every DCR feature set, every history and
+   every request document: the registration_client_uri member of the response of a registration or
+   update, rendered as the string the server sends (name: the strings minted for the handles, each
+   one non-empty path segment), is
+   - the discovery document's registration_endpoint ++ "/" ++ the client_id member of the same response,
+   - dispatched, under GET, PUT and DELETE, to the registered-client handlers addressing that client,
+   - the only URL that addresses that client,
+   and with the registration token in force after the operation (the one the response reports, when it
+   reports one) the GET at that URL answers the client's document - carrying the same URI and
+   client_id - and the DELETE deletes it. *)
+Theorem dcr_registration_uri_works : forall host mtls p opts pc (name : id -> string) resolve cfg ops o cid cr d,
+  build3 p opts = Some pc -> cf_dcr (pc_cfg pc) = true ->
+  routes_ok pc = true -> sub_roots_apart pc = true ->
+  (forall h, is_empty (name h) = false /\ no_slash (name h) = true) ->
+  (forall h, resolve (name h) = Some h) ->
+  let s := fst (drun cfg ops) in
+  let n := List.length ops in
+  writes n o cid ->
+  snd (dstep cfg s n o) = DDoc cr d ->
+  let s' := fst (dstep cfg s n o) in
+  let uri := registration_uri host pc (name cid) in
+  rendered_uri host pc name d = Some uri /\
+  dget "client_id" d = Some (JCred cid) /\
+  (exists e, member3 host mtls pc MRegistrationEndpoint = Some (DStr e) /\ uri = (e ++ "/" ++ name cid)%string) /\
+  (forall m, In m [MGet; MPut; MDelete] ->
+     follow host pc m uri = Some EpDcrClient /\ follow_client host pc m uri = Some (name cid)) /\
+  (forall m url, follow_client host pc m url = Some (name cid) -> url = uri) /\
+  exists c, dfind cid s' = Some c /\
+    (forall t, dget "registration_access_token" d = Some (JCred t) -> t = dc_htoken c) /\
+    (exists rd, url_op host pc resolve MGet uri (PTok (dc_htoken c)) None HkNone = Some rd /\
+       exists d', snd (dstep cfg s' (S n) rd) = DDoc false d' /\
+                  rendered_uri host pc name d' = Some uri /\ dget "client_id" d' = Some (JCred cid)) /\
+    (exists dl, url_op host pc resolve MDelete uri (PTok (dc_htoken c)) None HkNone = Some dl /\
+       snd (dstep cfg s' (S n) dl) = DDeleted).
+Proof. exact registration_uri_works_all_histories. Qed.
+Print Assumptions dcr_registration_uri_works.
+
+(* the hypotheses are satisfiable: a provider under /auth whose registration endpoint is /clients *)
+Definition ex_uri_opts : list popt := [PO WithDCR; WithDCREndpoint "/clients"; PO WithDCRTokenRotation; PO (WithPathPrefix "/auth")].
+Definition ex_uri_pc : pcfg := match build3 POpenID ex_uri_opts with Some pc => pc | None => mkPcfg (base_config POpenID) no_paths end.
+Example ex_uri_hypotheses :
+  build3 POpenID ex_uri_opts = Some ex_uri_pc /\ cf_dcr (pc_cfg ex_uri_pc) = true /\
+  routes_ok ex_uri_pc = true /\ sub_roots_apart ex_uri_pc = true.
+Proof. vm_compute. auto. Qed.
+Example ex_uri_value :
+  registration_uri "https://as.example" ex_uri_pc "dc-1" = "https://as.example/auth/clients/dc-1"%string /\
+  member3 "https://as.example" "" ex_uri_pc MRegistrationEndpoint = Some (DStr "https://as.example/auth/clients") /\
+  follow_client "https://as.example" ex_uri_pc MPut "https://as.example/auth/clients/dc-1" = Some "dc-1"%string.
+Proof. vm_compute. auto. Qed.
+(* a URI built from the host without the prefix (ctx.Host + EndpointDCR + "/" + id), or at the default
+   path, reaches no handler at all *)
+Example ex_uri_without_prefix_not_served :
+  follow "https://as.example" ex_uri_pc MGet "https://as.example/clients/dc-1" = None /\
+  follow "https://as.example" ex_uri_pc MGet "https://as.example/auth/register/dc-1" = None /\
+  follow "https://as.example" ex_uri_pc MGet "https://as.example/auth/clients/dc-1/x" = Some EpDcrClient /\
+  follow_client "https://as.example" ex_uri_pc MGet "https://as.example/auth/clients/dc-1/x" = None.
 Proof. vm_compute. auto. Qed.
